@@ -38,7 +38,8 @@ PROPERTY = 'C15'
 RULE = ('Hypothesis-generated interact() sessions: typed stream (all byte values, multi-byte text, bursts of 1500-3000 '
         'bytes) in 1-5 pieces, escape character absent/first/middle/last/repeated/None, input/output filters, child '
         'output script (0-4 writes incl. 2500-byte bursts), pending buffer at entry, bytes|utf-8, select|poll, child '
-        'exit while interacting.  Non-trivial: the escape character is present with data on both sides of it in one '
+        'exit while interacting; one session in six is a paste of 60-150 KB typed while the child does not read yet, '
+        'with signals arriving at the copying thread every 2 ms (short writes to the child).  Non-trivial: the escape character is present with data on both sides of it in one '
         'write, or a burst > 1000 bytes, or a filter is installed.  Distinct by hash of the case.')
 ASSUMPTIONS = [
     'one write of <= 1000 bytes to a raw pty normally arrives in one read; the oracle (everything before the first '
@@ -135,6 +136,16 @@ def cases(draw, want_logs=False):
             'pending': draw(st.sampled_from([b'', b'', b'ING-TEXT'])),
             'use_poll': draw(st.booleans()),
             'child_exits': esc_mode in ('absent', 'none') or draw(st.integers(0, 5)) == 0}
+    if not want_logs and draw(st.integers(0, 5)) == 0:
+        # a paste: far more keystrokes than the child's terminal queues while the child is not reading yet, so
+        # that the copy loop blocks in the middle of a chunk, and signals arriving at the copying thread meanwhile
+        # (a SIGWINCH handler, as the interact() documentation itself suggests): short writes
+        n_ = draw(st.sampled_from([60000, 150000]))
+        big = b''.join(b'%06d|' % i for i in range(n_ // 7))
+        case['pieces'] = [big] + case['pieces'] if esc_mode != 'first' else case['pieces'] + [big]
+        case['outs'] = [o for o in case['outs'] if len(o) < 200][:3]
+        case['stall'] = 0.3
+        case['storm'] = True
     if want_logs:
         case['logs'] = sorted(draw(st.sets(st.sampled_from(['logfile', 'logfile_read', 'logfile_send']), min_size=1, max_size=3)))
     return case
@@ -213,6 +224,8 @@ def check_case(case, col=None, logs=None):
     # the child: prints PEND+pending, then after a trigger its output script; records input
     pending = case['pending']
     actions = [['w', (b'PEND' + pending).hex()], ['recuntil', dialogue.trig(0).hex()]]
+    if case.get('stall'):
+        actions.append(['s', case['stall']])
     for o in case['outs']:
         actions += [['w', o.hex()], ['s', 0.004]]
     if case['child_exits'] and not esc_hit:
@@ -258,6 +271,20 @@ def check_case(case, col=None, logs=None):
                     result['exc'] = e
             th = threading.Thread(target=run, daemon=True)
             th.start()
+            if case.get('storm'):
+                import signal as _signal
+                saved_usr1 = _signal.signal(_signal.SIGUSR1, lambda *a: None)
+                storm_stop = threading.Event()
+
+                def storm():
+                    while not storm_stop.is_set() and th.is_alive():
+                        try:
+                            _signal.pthread_kill(th.ident, _signal.SIGUSR1)
+                        except Exception:
+                            return
+                        time.sleep(0.002)
+                storm_th = threading.Thread(target=storm, daemon=True)
+                storm_th.start()
             # wait until interact() has put the user terminal into raw mode
             t0 = time.time()
             while time.time() - t0 < 10:
@@ -274,10 +301,20 @@ def check_case(case, col=None, logs=None):
                 if not th.is_alive():
                     break
                 off = 0
-                while off < len(p):
-                    n = os.write(um, p[off:off + 1000])
-                    off += n
-                    drain(um, seen)
+                t_type = time.time()
+                os.set_blocking(um, False)
+                try:
+                    while off < len(p):
+                        try:
+                            n = os.write(um, p[off:off + 1000])
+                        except BlockingIOError:
+                            n = 0           # the copy loop is not reading at the moment: keep displaying, try again
+                        off += n
+                        drain(um, seen, 0.002 if n == 0 else 0)
+                        if n == 0 and (not th.is_alive() or time.time() - t_type > 60):
+                            break
+                finally:
+                    os.set_blocking(um, True)
                 drain(um, seen, 0.006)
             # let interact finish
             if esc_hit or case['child_exits']:
@@ -428,6 +465,13 @@ def check_case(case, col=None, logs=None):
                             raise Violation('log-differs:logfile', 'logfile during interact() holds %d characters; shown %d bytes + sent %d bytes'
                                             % (len(joined), len(shown), len(want_child)))
     finally:
+        if case.get('storm'):
+            try:
+                storm_stop.set()
+                storm_th.join(1)
+                _signal.signal(_signal.SIGUSR1, saved_usr1)
+            except NameError:
+                pass
         if child is not None:
             peers.reap(child)
         if ps is not None:
